@@ -121,7 +121,7 @@ pub fn parse(text: &str, path: &str) -> Unit {
         while *i < lines.len() {
             let l = lines[*i];
             let t = l.trim();
-            if t.starts_with('#') {
+            if t.starts_with('#') && !t.starts_with("#[") {
                 *i += 1;
                 continue;
             }
@@ -142,7 +142,7 @@ pub fn parse(text: &str, path: &str) -> Unit {
         let ln = i + 1;
         let t = l.trim();
         i += 1;
-        if t.is_empty() || t.starts_with('#') {
+        if t.is_empty() || (t.starts_with('#') && !t.starts_with("#[")) {
             continue;
         }
         let w = first_word(l);
